@@ -439,6 +439,26 @@ func spawn(f func()) {
 	go t.main(f)
 }
 
+// Spawn starts several managed threads at ONE scheduling point (harness convenience: the threads
+// of a scenario come into existence together, so no schedule is spent on "T1 runs before T2 exists").
+func Spawn(fs ...func()) {
+	if !on() {
+		for _, f := range fs {
+			go f()
+		}
+		return
+	}
+	if unwinding() {
+		return
+	}
+	s := getCur()
+	s.point(OpSpawn, nil)
+	for _, f := range fs {
+		t := s.newThread()
+		go t.main(f)
+	}
+}
+
 //go:norace
 func getCur() *sched { return cur }
 
